@@ -9,11 +9,15 @@ is used to read a unit label.
 import math
 from fractions import Fraction
 
-DIMS = ("cm", "g", "s", "K", "G")
+DIMS = ("cm", "g", "s", "K", "A")
 
 
-def _d(cm=0, g=0, s=0, K=0, G=0):
-    return (cm, g, s, K, G)
+def _d(cm=0, g=0, s=0, K=0, A=0):
+    return (Fraction(cm), Fraction(g), Fraction(s), Fraction(K), Fraction(A))
+
+
+# Gaussian-cgs magnetic field: g^1/2 cm^-1/2 s^-1 (no ampere: a different dimension from the SI tesla)
+GAUSS = _d(cm=Fraction(-1, 2), g=Fraction(1, 2), s=-1)
 
 
 EXACT = 0.0
@@ -68,9 +72,22 @@ TABLE = {
     "solar_luminosity": (3.828e33, _d(cm=2, g=1, s=-3), 1e-4),  # IAU 2015 nominal
     "bolometric_luminosity": (3.0128e35, _d(cm=2, g=1, s=-3), 1e-4),  # IAU 2015 B2 zero point
     "radiation_constant": (7.565733e-15, _d(cm=-1, g=1, s=-2, K=-4), 1e-4),  # 4 sigma / c, CODATA 2018
-    # magnetic (own base dimension G)
-    "gauss": (1.0, _d(G=1), EXACT),
-    "tesla": (1.0e4, _d(G=1), EXACT),
+    # magnetic / electric: Gaussian-cgs units have no ampere and are dimensionally distinct from SI ones
+    "gauss": (1.0, GAUSS, EXACT),
+    "milligauss": (1.0e-3, GAUSS, 1e-15),
+    "statvolt": (1.0, _d(cm=Fraction(1, 2), g=Fraction(1, 2), s=-1), EXACT),
+    "franklin": (1.0, _d(cm=Fraction(3, 2), g=Fraction(1, 2), s=-1), EXACT),
+    "tesla": (1.0e3, _d(g=1, s=-2, A=-1), EXACT),
+    "ampere": (1.0, _d(A=1), EXACT),
+    "coulomb": (1.0, _d(s=1, A=1), EXACT),
+    "volt": (1.0e7, _d(cm=2, g=1, s=-3, A=-1), EXACT),
+    "farad": (1.0e-7, _d(cm=-2, g=-1, s=4, A=2), 1e-15),
+    "ohm": (1.0e7, _d(cm=2, g=1, s=-3, A=-2), EXACT),
+    "weber": (1.0e7, _d(cm=2, g=1, s=-2, A=-1), EXACT),
+    "henry": (1.0e7, _d(cm=2, g=1, s=-2, A=-2), EXACT),
+    # a few units whose symbols collide with products of others when spaces are dropped
+    "millisecond": (1.0e-3, _d(s=1), 1e-15),
+    "inch": (2.54, _d(cm=1), EXACT),
 }
 
 # independent check values for the catalogue (C08): symbol -> (canonical, aliases)
@@ -122,7 +139,7 @@ def power(a, k):
 
 
 def dims_of(**kw):
-    return tuple(Fraction(x) for x in _d(**kw))
+    return _d(**kw)
 
 
 def ramses_expected_units(unit_d, unit_l, unit_t):
@@ -134,7 +151,7 @@ def ramses_expected_units(unit_d, unit_l, unit_t):
         "velocity": (v, dims_of(cm=1, s=-1)),
         "momentum": (ud * v, dims_of(g=1, cm=-2, s=-1)),
         "energy": (ud * v * v, dims_of(g=1, cm=-1, s=-2)),
-        "B": (math.sqrt(4.0 * PI * ud * v * v), dims_of(G=1)),
+        "B": (math.sqrt(4.0 * PI * ud * v * v), GAUSS),
         "length": (ul, dims_of(cm=1)),
         "time": (ut, dims_of(s=1)),
         "mass": (ud * ul**3, dims_of(g=1)),
